@@ -68,6 +68,7 @@ pub fn api_contract_db(buf: *mut u8, cap: usize, region_len: usize) -> (Database
     layout_of(&db).insert_region(0, &r);
     crate::regions::verif_regions::add(regions_of(&db), "v", &r, false);
     anydb_verif_platform::sync::set_cut(db.0.layout.verif_id());
+    anydb_verif_platform::sync::set_cut_size(core::mem::size_of::<Layout>());
     (db, r)
 }
 
@@ -92,6 +93,7 @@ pub fn api_contract_db_named(buf: *mut u8, cap: usize, region_len: usize, name: 
     layout_of(&db).insert_region(0, &r);
     crate::regions::verif_regions::add(regions_of(&db), name, &r, true);
     anydb_verif_platform::sync::set_cut(db.0.layout.verif_id());
+    anydb_verif_platform::sync::set_cut_size(core::mem::size_of::<Layout>());
     (db, r)
 }
 
@@ -137,5 +139,6 @@ pub fn api_contract_db2(buf: *mut u8, cap_a: usize, len_a: usize, cap_b: usize, 
     crate::regions::verif_regions::add(regions_of(&db), "a", &a, false);
     crate::regions::verif_regions::add(regions_of(&db), "b", &b, false);
     anydb_verif_platform::sync::set_cut(db.0.layout.verif_id());
+    anydb_verif_platform::sync::set_cut_size(core::mem::size_of::<Layout>());
     (db, a, b)
 }
